@@ -40,6 +40,9 @@ def declare(reg):
         ('left_recursion', 'bool'), ('memoization', 'bool'), ('prune_memos_on_cut', 'bool'), ('parseinfo', 'bool'),
         ('ignorecase', 'bool'), ('trace', 'bool'),
     ])
+    reg.classes['DictD'] = {'mro': [], 'fields': {'dkeys': 'strset', 'dvals': 'strmap'}, 'isa': ['dict']}
+    for attr, srt in {'attr': 'str', 'id': 'str', 'ctx': 'opaque:AstNode', 'func': 'opaque:AstNode', 'args': 'seq[opaque:AstNode]'}.items():
+        reg.opaque_attrs[('AstNode', attr)] = ('attr', srt)
     reg.classes['MemoD'] = {
         'mro': [], 'fields': {'mkeys': 'arr[MemoKeyR,bool]', 'mvals': 'arr[MemoKeyR,Outcome]'}, 'isa': ['dict'],
     }
